@@ -40,7 +40,6 @@ From Verif Require Import Model.Ctrl Proofs.CtrlP Proofs.CtrlWorldP Proofs.CtrlT
 
 Theorem C07_release_triggers_reload : forall rank c s o k oc,
   set_balancer rank c s (Some o) k = Some oc -> c_have_pools c = true ->
-  (oc_write oc = None \/ k_write k = true) ->
   (releases (c_mem c) (c_mem (oc_state oc)) s (ips_of (c_mem c) s) \/
    releases (c_mem c) (c_mem (oc_state oc)) s (o_status o)) ->
   oc_sync oc = ReprocessAll.
